@@ -768,6 +768,53 @@ class SX:
             return None, (m or anym)
         return None, m
 
+    _KNOWN_DECORATORS = ('property', 'staticmethod', 'classmethod', 'abstractmethod', 'wraps', 'override', 'final')
+
+    def _undecorate(self, fn, module):
+        """A function under a decorator of the package runs the decorator's wrapper, not (only) its own body.  The one shape that is
+        resolved: a module-level `def deco(f): @wraps(f) def inner(<the same parameters>): <prefix>; return f(<the parameters>)`
+        followed by `return inner` - the call runs <prefix> and then the body, which is what is evaluated (class context and name
+        mangling of the decorated method are kept).  Any other unknown decorator fails closed."""
+        decos = []
+        for d in getattr(fn, 'decorator_list', ()):
+            base = d.func if isinstance(d, ast.Call) else d
+            nm = base.id if isinstance(base, ast.Name) else (base.attr if isinstance(base, ast.Attribute) else None)
+            if nm in self._KNOWN_DECORATORS or nm in ('setter', 'getter', 'deleter') or (nm and 'cache' in nm):
+                continue
+            decos.append((d, nm))
+        if not decos:
+            return fn
+        key = ('undecorated', id(fn))
+        if key in self._fn_cache:
+            return self._fn_cache[key][1]
+        if len(decos) != 1 or not isinstance(decos[0][0], ast.Name) or decos[0][1] not in self.model.functions:
+            raise CannotDecide(f'{fn.name} runs under the decorator @{ast.unparse(decos[0][0])[:40]}, which is outside the resolved shapes')
+        dmod, dfn = self.model.functions[decos[0][1]]
+        body = strip_docstring(dfn.body)
+        inner = [b for b in body if isinstance(b, ast.FunctionDef)]
+        ok = len(dfn.args.args) == 1 and len(inner) == 1 and len(body) == 2 and isinstance(body[1], ast.Return) \
+            and isinstance(body[1].value, ast.Name) and body[1].value.id == inner[0].name
+        if ok:
+            f_par = dfn.args.args[0].arg
+            w = inner[0]
+            wbody = strip_docstring(w.body)
+            params = [a.arg for a in fn.args.args]
+            last = wbody[-1] if wbody else None
+            ok = [a.arg for a in w.args.args] == params and not w.args.vararg and not w.args.kwarg and not fn.args.vararg \
+                and not fn.args.kwarg and not fn.args.defaults and not w.args.defaults \
+                and isinstance(last, ast.Return) and isinstance(last.value, ast.Call) and isinstance(last.value.func, ast.Name) \
+                and last.value.func.id == f_par and not last.value.keywords \
+                and [getattr(a, 'id', None) for a in last.value.args] == params \
+                and not any(isinstance(x, ast.Name) and x.id == f_par for b in wbody[:-1] for x in ast.walk(b)) \
+                and not any(isinstance(x, ast.Name) and isinstance(x.ctx, ast.Store) and x.id in params for b in wbody[:-1] for x in ast.walk(b))
+        if not ok:
+            raise CannotDecide(f'{fn.name} runs under the decorator @{decos[0][1]}, whose wrapper is outside the resolved shape')
+        new = copy.copy(fn)
+        new.decorator_list = [d for d in fn.decorator_list if d is not decos[0][0]]
+        new.body = [copy.deepcopy(b) for b in wbody[:-1]] + list(fn.body)
+        self._fn_cache[key] = (fn, new)
+        return new
+
     # ---- entry points
     def run(self, fn: ast.FunctionDef, module: str, cls: str = None, self_val: V = None, args: dict = None,
             state: State = None, depth=0) -> list:
@@ -778,6 +825,7 @@ class SX:
             if 'cache' in ast.unparse(d):
                 # a memoised function answers from an earlier call: evaluating its body says nothing about later calls (fail closed)
                 raise CannotDecide(f'{fn.name} is memoised (@{ast.unparse(d)[:40]}): its result may be that of an earlier state')
+        fn = self._undecorate(fn, module)
         if self.fn_transform is not None:
             key = id(fn)
             if key not in self._fn_cache:
@@ -1342,6 +1390,17 @@ class SX:
             return st
         s = st.copy()
         s.env[name] = new
+        if isinstance(v, Ov) and isinstance(new, Ov):
+            # the test was about the OBJECT: every other local bound to the same object (`for p, gear in (('master', master), ...)`)
+            # sees the narrowed class too
+            for k, v2 in list(s.env.items()):
+                if k != name and isinstance(v2, Ov) and v2.path == v.path and not v2.exact \
+                        and (v2.cls is None or self.model.is_subclass(new.cls, v2.cls)):
+                    s.env[k] = Ov(v2.path, new.cls, False)
+        elif isinstance(v, Dyn) and not isinstance(new, Dyn):
+            for k, v2 in list(s.env.items()):
+                if k != name and v2 is v:
+                    s.env[k] = new
         return s
 
     def truth(self, v: V):
@@ -2601,6 +2660,20 @@ class SX:
             res.append(v if isinstance(v, Outcome) else (s, v))
         return res
 
+    def _checked_bool_param(self, l, st, frame_fn=None):
+        """the truth atom of a parameter that some function of the package checks with isinstance(<name>, bool) before use"""
+        if l.guard.kind != 'truth' or not isinstance(l.guard.key[0], str) or not l.guard.key[0].isidentifier():
+            return False
+        name = l.guard.key[0]
+        if not hasattr(self, '_bool_checked'):
+            self._bool_checked = set()
+            for tree in self.model.trees.values():
+                for c in ast.walk(tree):
+                    if isinstance(c, ast.Call) and isinstance(c.func, ast.Name) and c.func.id == 'isinstance' and len(c.args) == 2 \
+                            and isinstance(c.args[0], ast.Name) and isinstance(c.args[1], ast.Name) and c.args[1].id == 'bool':
+                        self._bool_checked.add(c.args[0].id)
+        return name in self._bool_checked and name in st.env
+
     def compare_values(self, op, l, r, st, n):
         if isinstance(op, (ast.Is, ast.IsNot)):
             neg = isinstance(op, ast.IsNot)
@@ -2618,11 +2691,22 @@ class SX:
                     return Bv((other.name == x.name) != neg)
                 if isinstance(other, (Q, N, Sv, Tv, NoneV, Bv, Cv, Dv, Uv)) or (isinstance(other, Ov) and other.cls not in (None, 'object')):
                     return Bv(neg)          # a value of another type is never the sentinel object
-            if isinstance(r, Bv) and isinstance(l, Bsym) and isinstance(n, ast.Compare) and len(n.ops) == 1 \
-                    and isinstance(n.left, ast.Call) and isinstance(n.left.func, ast.Name) and n.left.func.id == 'bool':
+            if isinstance(r, Bv) and isinstance(l, Bsym) and (self._checked_bool_param(l, st, frame_fn=getattr(n, '_frame_fn', None)) or (
+                    isinstance(n, ast.Compare) and len(n.ops) == 1
+                    and isinstance(n.left, ast.Call) and isinstance(n.left.func, ast.Name) and n.left.func.id == 'bool')):
+                # a bool-typed parameter is a truth atom;
                 # the result of bool(...) is one of the two singletons (a comparison's result need not be: numpy.bool_)
                 g_ = l.guard if r.b else l.guard.negate()
                 return Bsym(g_.negate() if neg else g_)
+            if isinstance(r, Bv) and isinstance(l, (Dyn, N, Unk, Ov)):
+                # `x is True` on a value that passed isinstance(x, bool): x is one of the two singletons, so this is its truth value
+                nm_ = self.none_name(l) or self.show(l)
+                if any(g_.kind == 'isinstance' and g_.pol and g_.key[0] == nm_ and tuple(g_.key[1]) == ('bool',) for g_ in st.guards):
+                    t_ = self.truth(l)
+                    if isinstance(t_, bool):
+                        return Bv((t_ is r.b) != neg)
+                    g_ = t_ if r.b else t_.negate()
+                    return Bsym(g_.negate() if neg else g_)
             if isinstance(r, Bv) and isinstance(l, (Bv, NoneV)):
                 # `flag is False` on a concrete flag: True / False / None are singletons
                 same = isinstance(l, Bv) and l.b is r.b
